@@ -20,11 +20,18 @@ export PROP REPO VERIF_DIR="$(pwd)"
 JOBS="${SELFTEST_JOBS:-6}"
 
 breaking=()
+declared=()
 for f in mutants/${PROP}-*.patch; do [ -f "$f" ] && breaking+=("$f"); done
 for d in seeded/*/; do
   [ -f "$d/meta.json" ] || continue
   if grep -q "\"property\": *\"$PROP\"" "$d/meta.json" || grep -q "\"also_detected_by\":.*\"$PROP\"" "$d/meta.json"; then
-    [ -f "$d/patch.diff" ] && breaking+=("${d}patch.diff")
+    if grep -q '"not_decided_statically"' "$d/meta.json"; then
+      # a confirmed breakage whose meta.json declares, with the reason, that no static rule in reach decides it:
+      # it is run and reported, but a miss is the declared outcome and does not fail the self-test
+      [ -f "$d/patch.diff" ] && declared+=("${d}patch.diff")
+    else
+      [ -f "$d/patch.diff" ] && breaking+=("${d}patch.diff")
+    fi
   fi
 done
 benign=()
@@ -40,7 +47,13 @@ run_one() { # kind patch -> one JSON line on stdout
   fi
   log=$("$VERIF_DIR"/bin/kcpverif -prop "$PROP" -tier quick -repo "$tmp/repo" -verif "$VERIF_DIR" -evidence "$tmp/ev" 2>&1); rc=$?
   rules=$(echo "$log" | grep -o '\[C[0-9]*\.[A-Za-z0-9]*\]' | sort -u | tr -d '[]' | tr '\n' ' ')
-  if [ "$kind" = breaking ]; then
+  if [ "$kind" = declared ]; then
+    if [ $rc -eq 1 ] && echo "$log" | grep -q "^VIOLATION property=$PROP"; then
+      echo "{\"kind\":\"$kind\",\"patch\":\"$pf\",\"result\":\"detected\",\"rules\":\"$rules\"}"
+    else
+      echo "{\"kind\":\"$kind\",\"patch\":\"$pf\",\"result\":\"not detected (declared out of reach of the static rules, see its meta.json)\"}"
+    fi
+  elif [ "$kind" = breaking ]; then
     if [ $rc -eq 1 ] && echo "$log" | grep -q "^VIOLATION property=$PROP"; then
       echo "{\"kind\":\"$kind\",\"patch\":\"$pf\",\"result\":\"detected\",\"rules\":\"$rules\"}"
     else
@@ -60,6 +73,7 @@ export -f run_one
 res=$(mktemp /tmp/kcpverif-st-res.XXXXXX)
 {
   for pf in "${breaking[@]:-}"; do [ -n "$pf" ] && echo "breaking $pf"; done
+  for pf in "${declared[@]:-}"; do [ -n "$pf" ] && echo "declared $pf"; done
   for pf in "${benign[@]:-}"; do [ -n "$pf" ] && echo "benign $pf"; done
 } | xargs -P "$JOBS" -L 1 bash -c 'run_one "$0" "$1"' > "$res"
 
@@ -69,6 +83,7 @@ rows = [json.loads(l) for l in open(sys.argv[1]) if l.strip()]
 prop = sys.argv[2]
 br = sorted([r for r in rows if r["kind"] == "breaking"], key=lambda r: r["patch"])
 bn = sorted([r for r in rows if r["kind"] == "benign"], key=lambda r: r["patch"])
+dc = sorted([r for r in rows if r["kind"] == "declared"], key=lambda r: r["patch"])
 det = sum(r["result"] == "detected" for r in br)
 mis = [r for r in br if r["result"].startswith("MISSED")]
 skp = sum(r["result"].startswith("skipped") for r in br)
@@ -77,12 +92,14 @@ fal = [r for r in bn if r["result"].startswith("FALSE-ALARM")]
 bskp = sum(r["result"].startswith("skipped") for r in bn)
 out = {"property": prop, "patches": len(br), "detected": det, "missed": len(mis), "skipped": skp,
        "results": [{k: v for k, v in r.items() if k != "kind"} for r in br],
+       "declared_out_of_reach": [{k: v for k, v in r.items() if k != "kind"} for r in dc],
        "benign_edits": len(bn), "benign_silent": sil, "benign_false_alarms": len(fal), "benign_skipped": bskp,
        "benign_results": [{k: v for k, v in r.items() if k != "kind"} for r in bn if r["result"] != "silent"]}
 json.dump(out, open(sys.argv[3], "w"), indent=1)
 for r in mis: print(f"SELFTEST-MISSED property={prop} patch={r['patch']} {r['result']}")
 for r in fal: print(f"SELFTEST-FALSE-ALARM property={prop} patch={r['patch']} rules={r.get('rules','')}")
-print(f"selftest {prop}: breaking patches={len(br)} detected={det} missed={len(mis)} skipped={skp}; benign edits={len(bn)} silent={sil} false-alarms={len(fal)} skipped={bskp}")
+for r in dc: print(f"SELFTEST-DECLARED property={prop} patch={r['patch']} {r['result']}")
+print(f"selftest {prop}: breaking patches={len(br)} detected={det} missed={len(mis)} skipped={skp}; declared out of reach={len(dc)}; benign edits={len(bn)} silent={sil} false-alarms={len(fal)} skipped={bskp}")
 sys.exit(2 if mis or fal else 0)
 EOF
 rc=$?
